@@ -169,7 +169,7 @@ def check(ctx):
             v = L.discharge(s)
             if v is None or v[0] == 'OUT-OF-FAMILY':
                 # registry initialisers: the store constructors panic only for Named items; their inputs must be Known constants
-                if v is not None and panic.fn_role(s['body']) == '_insert' and known_constants_only(ctx, G):
+                if v is not None and panic.is_store_insert_panic(s) and known_constants_only(ctx, G):
                     continue
                 problems += 1
                 ctx.fail('C20.3', ctx.site(s['body'], s['block']), 'panic-capable site executed while %s is held is not discharged [%s %s]: a panic here poisons the lock for every thread' % (X, s['cls'], s['what']),
